@@ -15,7 +15,8 @@ CONSTANTS
   Strict      \* TRUE: a commit may fail only if a fault was armed for it or another transaction overlaps it
 
 VARIABLES
-  cat,        \* catalogue: store name -> [unique |-> BOOLEAN, by |-> creating txn or "" once committed]
+  cat,        \* catalogue: store name -> [unique |-> BOOLEAN, by |-> creating txn or "" once committed,
+              \*                            opts |-> digest of the store's configuration as created]
   db,         \* db[s]: committed items of store s (DOMAIN db = DOMAIN cat)
   tx          \* tx[t]: per-transaction record (see NewTx)
 
@@ -70,28 +71,32 @@ Arm(t) ==
 NewStoreBegin(t, s, unique) ==
   /\ Active(t)
   /\ IF s \notin DOMAIN cat
-     THEN /\ cat' = cat @@ (s :> [unique |-> unique, by |-> t])
+     THEN /\ cat' = cat @@ (s :> [unique |-> unique, by |-> t, opts |-> ""])
           /\ db'  = db @@ (s :> {})
           /\ SetTx(t, [tx[t] EXCEPT !.created = @ \cup {s}])
      ELSE UNCHANGED vars
 
 \* NewBtree returns: created by this call, or opened if it existed with compatible options
-NewStore(t, s, unique, ok) ==
+\* opts: digest of the configuration the returned B-tree reports (name, description, slot length, flags, tables, root id)
+NewStore(t, s, unique, ok, opts) ==
   /\ Active(t)
   /\ s \in DOMAIN cat
   /\ IF s \in tx[t].created
      THEN /\ ok
           /\ SetTx(t, [tx[t] EXCEPT !.opened = @ \cup {s}])
-          /\ UNCHANGED <<cat, db>>
+          /\ cat' = [cat EXCEPT ![s].opts = opts]        \* the configuration the store was created with
+          /\ UNCHANGED db
      ELSE /\ ok = (cat[s].unique = unique)
+          /\ ok => opts = cat[s].opts                   \* C13: reopening yields the original configuration
           /\ IF ok THEN SetTx(t, [tx[t] EXCEPT !.opened = @ \cup {s}]) /\ UNCHANGED <<cat, db>>
              ELSE \* incompatible options: the transaction is rolled back
                   /\ SetTx(t, [tx[t] EXCEPT !.st = "done", !.outcome = "rolledback"])
                   /\ cat' = WithoutAll(cat, tx[t].created)
                   /\ db'  = WithoutAll(db, tx[t].created)
 
-OpenStore(t, s, ok) ==
+OpenStore(t, s, ok, opts) ==
   /\ Active(t)
+  /\ (ok /\ s \in DOMAIN cat) => opts = cat[s].opts     \* C13
   /\ \/ ok = (s \in DOMAIN cat)
      \* deviation of the code: a store whose creating transaction is still in flight may be listed but not yet openable
      \/ (~ok /\ s \in DOMAIN cat /\ cat[s].by # "" /\ cat[s].by # t)
@@ -240,10 +245,11 @@ RemoveStore(s) ==
   /\ UNCHANGED tx
 
 \* Observation by a fresh transaction / fresh process: exactly the committed state
-Observe(s, exists, items, count) ==
+Observe(s, exists, items, count, opts) ==
   /\ exists = (s \in DOMAIN cat)
   /\ exists => /\ IsSortedDump(items, db[s])
                /\ count = Cardinality(db[s])
+               /\ opts = cat[s].opts                     \* C13: only count and timestamp ever change
   /\ UNCHANGED vars
 
 \* Observation while the creating transaction is still in flight may or may not list the store (not a content claim)
